@@ -117,7 +117,7 @@ def max_bytes_cases(ctx, spec, msgs, fsize, per_boundary=1):
     pts = set([0, 1, 23, 24, 25, fsize - 1, fsize, fsize + 1])
     for m in msgs:
         for d in (-1, 0, 1):
-            pts.add(m['off'] + d); pts.add(m['off'] + 24 + d); pts.add(m['off'] + m['size'] + d)
+            pts.add(m['off'] + d); pts.add(m['off'] + K.HEADER_SIZE + d); pts.add(m['off'] + m['size'] + d)
     present_types = sorted({m['type'] for m in msgs})
     present_srcs = sorted({m['src'] for m in msgs})
     rp = range_pool(rng, spec)
@@ -135,13 +135,14 @@ def max_bytes_cases(ctx, spec, msgs, fsize, per_boundary=1):
 def gen_logs(ctx):
     rng = ctx.rng
     logs = [(s, 'fixed') for s in K.fixed_logs()]
-    n_random = 60 if ctx.thorough else 14
+    n_random = 400 if ctx.thorough else 30
     for i in range(n_random):
         logs.append((K.random_log(rng, nmax=rng.choice([4, 8, 12])), 'random'))
     logs.append((K.late_source_log(rng), 'late-source'))
     if ctx.thorough:
-        logs.append((K.random_log(rng, nmax=30, nsrc=3), 'random'))
-        logs.append((K.late_source_log(rng, n=15), 'late-source'))
+        for _ in range(10):
+            logs.append((K.random_log(rng, nmax=30, nsrc=3), 'random'))
+        logs.append((K.late_source_log(rng, n=K.POPULATE_COUNT + 5), 'late-source'))
     return logs
 
 
@@ -204,10 +205,11 @@ class Evaluator:
         return recs
 
 
-def sampled_available(msgs, requested, max_bytes, n=10):
+def sampled_available(msgs, requested, max_bytes, n=None):
     """the documented sampling rule of _populate_available_source_ids (first n messages of each type that the
     read-time tests let through) — used only to CLASSIFY a violation as the recorded source-id finding"""
     avail = set()
+    n = n or K.POPULATE_COUNT
     for ty in sorted({m['type'] for m in msgs}):
         k = 0
         for m in msgs:
@@ -233,8 +235,13 @@ def judge(c, rec):
     impl, spec, model, lg = rec['impl'], rec['spec'], rec['model'], rec['log']
     msgs = lg['msgs']
     by_off = {m['off']: m for m in msgs}
-    if [dict(b, cls=by_off.get(b['off'], {}).get('cls')) for b in lg['base']] != msgs:
-        out.append(('correspondence', None, 'the unfiltered read of the generated log is not the list of messages written into it'))
+    want_base = [[['H', lg['data'][m['off']:m['off'] + K.HEADER_SIZE].hex()], ['P', None if m['cls'] is None else [m['cls'], m['t8']]],
+                  ['B', lg['data'][m['off']:m['off'] + m['size']].hex()], ['O', m['off']], ['I', m['idx']]] for m in msgs]
+    if lg['base'] != want_base:
+        bad = next((i for i, (a, b) in enumerate(zip(lg['base'], want_base)) if a != b), min(len(lg['base']), len(want_base)))
+        out.append(('violation', {'outcome': 'unfiltered-read-differs', 'class': 'other', 'features': 'none'},
+                    'the unfiltered read with every return_* option on is not the list of messages written into the file: %d yielded, %d written; first difference at message %d: %s vs %s'
+                    % (len(lg['base']), len(want_base), bad, json.dumps(lg['base'][bad:bad + 1])[:300], json.dumps(want_base[bad:bad + 1])[:300])))
         return out
     if spec[0] != 'ok':
         out.append(('correspondence', None, 'SPEC runner failed: %r' % (spec,)))
@@ -393,9 +400,12 @@ def describe(c, rec):
 
 def run(ctx):
     consts = gen_c10.generate()
+    K.set_consts(consts)
     ctx.notes.append('generated constants: %r' % consts)
     if not ctx.coq():
         ctx.broken_proof()
+    elif ctx.thorough:
+        K.coqchk(ctx, 'C10')
     ev = Evaluator(ctx)
     # corpus first
     cases = []
@@ -405,7 +415,7 @@ def run(ctx):
                 c = json.load(open(os.path.join(CORPUS, fn)))
                 cases.append(dict(c.get('case', c), origin='corpus:' + fn))
     logs = gen_logs(ctx)
-    budget = 400 if ctx.thorough else 160
+    budget = 600 if ctx.thorough else 160
     for spec, origin in logs:
         for c in cases_for_log(ctx, spec, budget):
             cases.append(dict(c, origin=origin))
@@ -496,7 +506,7 @@ def run(ctx):
 def replay(ctx, rec):
     case = rec.get('case', rec)
     case = case.get('case', case)
-    gen_c10.generate()
+    K.set_consts(gen_c10.generate())
     ev = Evaluator(ctx)
     c = dict(case, id='replay', origin='replay')
     r = ev.run([c], 'replay', with_legacy=True)[c['id']]
